@@ -46,16 +46,14 @@
               last span uses the COMPUTED phantom point fl(2 v3 - v2), which is
               within 3 * 2^(E-24) of 2 v3 - v2: C17_catmull_phantom_point);
      Bezier   for n * 2^E <= 2^22 (so the loop returns at depth <= 19, T01g):
-              every vertex emitted by the binary32 subdivision loop is finite
-              and within Kbez (n-1) + E_bez E (n-1) 19 of a point of the exact
-              Bezier curve; E_bez is explicit (pin_E_bez), e.g. <= 1/40 for cubic
-              segments with |c| <= 1024 (C17_bezier_vertices_ieee,
-              C17_bezier_vertices_ieee_depth for any depth bound d).
+              the two-sided Hausdorff bound Kbez (n-1) + E_bez E (n-1) 19
+              between the polyline emitted by the binary32 subdivision loop
+              and the exact Bezier curve -- vertices, chord points and curve
+              points (C17_bezier_hausdorff_ieee; C17_bezier_hausdorff_ieee_depth
+              for any depth bound d of the binary32 tree); E_bez is explicit
+              (pin_E_bez), e.g. <= 1/40 for cubic segments with |c| <= 1024.
 
    NOT proved (the property stays PARTIAL for this reason only):
-     - Bezier: the chords of the binary32 polyline and the covering of the
-       curve by them (the two other directions of C17_bezier_hausdorff) are
-       proved in exact arithmetic only; over binary32 only the vertices are;
      - circular arcs: the IEEE rounding error of the binary32 / binary64
        evaluation and libm's error in sin / cos / acosf / atan2.  It is
        MEASURED by the oracle of harness/src/c17.rs against curves evaluated
@@ -70,7 +68,7 @@ From RM Require Import Model.ControlPoints Model.Curve Gen.Generated Proofs.Bezi
   Proofs.HausdorffPlane Proofs.HausdorffArc Proofs.HausdorffBezierCore Proofs.HausdorffBezier
   Proofs.HausdorffCatmull Proofs.HausdorffCatmullDeriv Proofs.HausdorffSimplify
   Proofs.BezierIEEE Proofs.BezierIEEETight Proofs.VertexIEEEBase Proofs.VertexIEEECatmull Proofs.VertexIEEECatmullPath
-  Proofs.VertexIEEEBezierScalar Proofs.VertexIEEEBezier.
+  Proofs.VertexIEEEBezierScalar Proofs.VertexIEEEBezier Proofs.VertexIEEEBezierPath.
 From Flocq Require Import Core BinarySingleNaN.
 From Coq Require Import Reals.
 Open Scope Z_scope.
@@ -717,6 +715,47 @@ Theorem C17_bezier_vertices_ieee :
     Forall (bez_vertex_ok E points (S n') 19) new.
 Proof. exact bezier_vertices_ieee. Qed.
 Print Assumptions C17_bezier_vertices_ieee.
+
+(* the two-sided bound: [new] is everything the routine appends (the emitted
+   vertices and the final push of the last control point) *)
+Theorem C17_bezier_hausdorff_ieee_depth :
+  forall E points n' d path fuel path', 0 <= E <= 40 ->
+  length points = S (S n') -> Forall (point_ok E) points -> within32 d points ->
+  approximate_bezier_L1 fuel path points tt = Done (path', tt) ->
+  let K := (Kbez (S n') + E_bez E (S n') d)%R in
+  let B := Bez (map posR points) in
+  exists new, path' = path ++ new /\ (2 <= length new)%nat /\ Forall pos_fin new /\
+    (forall k, (k < length new)%nat ->
+       exists t, (0 <= t <= 1)%R /\ (dist2 (B t) (posR (nth k new pos0)) <= K)%R) /\
+    (forall k s, (S k < length new)%nat -> (0 <= s <= 1)%R ->
+       exists t, (0 <= t <= 1)%R /\
+         (dist2 (B t) (lerp2 (posR (nth k new pos0)) (posR (nth (S k) new pos0)) s) <= K)%R) /\
+    (forall t, (0 <= t <= 1)%R ->
+       exists k s, (S k < length new)%nat /\ (0 <= s <= 1)%R /\
+         (dist2 (B t) (lerp2 (posR (nth k new pos0)) (posR (nth (S k) new pos0)) s) <= K)%R).
+Proof. exact bezier_hausdorff_ieee_depth. Qed.
+Print Assumptions C17_bezier_hausdorff_ieee_depth.
+
+Theorem C17_bezier_hausdorff_ieee :
+  forall E points n' path fuel path', 0 <= E -> Z.of_nat (length points) * 2 ^ E <= 2 ^ 22 ->
+  length points = S (S n') -> Forall (point_ok E) points ->
+  approximate_bezier_L1 fuel path points tt = Done (path', tt) ->
+  let K := (Kbez (S n') + E_bez E (S n') 19)%R in
+  let B := Bez (map posR points) in
+  exists new, path' = path ++ new /\ (2 <= length new)%nat /\ Forall pos_fin new /\
+    (forall k, (k < length new)%nat ->
+       exists t, (0 <= t <= 1)%R /\ (dist2 (B t) (posR (nth k new pos0)) <= K)%R) /\
+    (forall k s, (S k < length new)%nat -> (0 <= s <= 1)%R ->
+       exists t, (0 <= t <= 1)%R /\
+         (dist2 (B t) (lerp2 (posR (nth k new pos0)) (posR (nth (S k) new pos0)) s) <= K)%R) /\
+    (forall t, (0 <= t <= 1)%R ->
+       exists k s, (S k < length new)%nat /\ (0 <= s <= 1)%R /\
+         (dist2 (B t) (lerp2 (posR (nth k new pos0)) (posR (nth (S k) new pos0)) s) <= K)%R).
+Proof. exact bezier_hausdorff_ieee. Qed.
+Print Assumptions C17_bezier_hausdorff_ieee.
+
+Example pin_pos_fin : forall p, pos_fin p <-> (is_finite (px p) = true /\ is_finite (py p) = true).
+Proof. intros. reflexivity. Qed.
 
 (* the last vertex (pushed after the loop) is the last control point: the
    curve's end point, distance 0 *)
